@@ -4,7 +4,7 @@
 From RV Require Import Base.
 From RV.Model Require Import Utf8 Indexer CodePointSet Insn IR Optimizer Unfold Emit.
 From RV.Spec Require Import IRSem IRShape.
-From RV.Proofs Require Import NodeInd OptDD OptMono OptWalk OptRel.
+From RV.Proofs Require Import NodeInd IRRange IRMono OptDD OptMono OptWalk OptRel.
 
 (* try_duplicate returns a copy *)
 Lemma try_dup_id : forall n d n', try_duplicate n d = Ok (Some n') -> n' = n.
@@ -117,14 +117,38 @@ Section LoopFacts.
     cbn [negb] in E. inversion E; reflexivity.
   Qed.
 
-  Lemma loop_shift : forall lf j entry y, mn + j + N.of_nat lf < USIZE_MAX -> L lf (mn + j) entry y = L' lf j entry y.
+  (* the iteration counter stays far below usize::MAX: past the minimum every iteration moves on (the empty check),
+     the body never moves against its direction, and positions stay inside the text *)
+  Variable len : nat.
+  Variable mu : nat -> nat.
+  Hypothesis Hmu_le : forall q, (q <= len)%nat -> (mu q <= len)%nat.
+  Hypothesis Hmu_inj : forall a b, (a <= len)%nat -> (b <= len)%nat -> mu a = mu b -> a = b.
+  Hypothesis Hbody : forall y zs, (fst y <= len)%nat -> bodyf y = Some zs ->
+    Forall (fun z => (fst z <= len)%nat /\ (mu (fst y) <= mu (fst z))%nat) zs.
+  Hypothesis Hlen : N.of_nat len + mn + 2 < USIZE_MAX.
+
+  Lemma obindm_ext_in {A} (f g : A -> option (list mst)) : forall xs, (forall x, In x xs -> f x = g x) -> obindm f xs = obindm g xs.
   Proof.
-    induction lf as [|lf IH]; intros j entry y Hb; [reflexivity|]. cbn [loop_results].
+    induction xs as [|x xs IH]; intro H; [reflexivity|]. cbn [obindm]. rewrite (H x (or_introl eq_refl)).
+    rewrite IH by (intros y Hy; apply H; right; exact Hy). reflexivity.
+  Qed.
+
+  Lemma loop_shift : forall lf j entry y, (fst y <= len)%nat ->
+    (j = 0 \/ (j <= N.of_nat (mu entry) + 1 /\ (mu entry <= mu (fst y))%nat /\ (entry <= len)%nat)) ->
+    L lf (mn + j) entry y = L' lf j entry y.
+  Proof.
+    induction lf as [|lf IH]; intros j entry y Hy Hinv; [reflexivity|]. cbn [loop_results].
     assert (Hc : (0 <? mn + j) && (mn <? mn + j) = (0 <? j) && (0 <? j)).
     { destruct (N.ltb_spec 0 j) as [Hj|Hj].
       - replace (0 <? mn + j) with true by (symmetry; apply N.ltb_lt; lia).
         replace (mn <? mn + j) with true by (symmetry; apply N.ltb_lt; lia). reflexivity.
       - replace (mn <? mn + j) with false by (symmetry; apply N.ltb_ge; lia). rewrite andb_false_r. reflexivity. }
+    rewrite Hc. destruct ((0 <? j) && (0 <? j) && (entry =? fst y)%nat) eqn:Hchk; [reflexivity|].
+    assert (Hj : j <= N.of_nat (mu (fst y))).
+    { destruct Hinv as [->|(H1 & H2 & H3)]; [lia|].
+      destruct (N.ltb_spec 0 j) as [Hj0|Hj0]; [|lia]. cbn [andb] in Hchk. apply Nat.eqb_neq in Hchk.
+      assert (mu entry <> mu (fst y)) by (intro Heq; apply Hchk; apply Hmu_inj; assumption). lia. }
+    pose proof (Hmu_le (fst y) Hy) as Hmy.
     assert (He : (mn + j <? max_val mx) = (j <? max_val mx')).
     { destruct mx as [v|]; cbn [option_map max_val] in *.
       - destruct (N.ltb_spec (mn + j) v); destruct (N.ltb_spec j (v - mn)); try reflexivity; lia.
@@ -141,9 +165,10 @@ Section LoopFacts.
                              | None => None
                              | Some zs => obindm (L' lf (j + 1) (fst y)) zs
                              end).
-    { intro g1. destruct (bodyf (fst y, g1)) as [zs|]; [|reflexivity]. apply obindm_ext_all. intro x.
-      rewrite <- N.add_assoc. apply IH. lia. }
-    rewrite Hc, He, Hs. destruct (reset_groups (snd y) egs (ege - egs)) as [g1|]; [rewrite Hit|]; reflexivity.
+    { intro g1. destruct (bodyf (fst y, g1)) as [zs|] eqn:Ez; [|reflexivity]. apply obindm_ext_in. intros z Hz0.
+      pose proof (Hbody (fst y, g1) zs Hy Ez) as Hb. rewrite Forall_forall in Hb. destruct (Hb z Hz0) as [Hz1 Hz2]. cbn [fst] in Hz2.
+      rewrite <- N.add_assoc. apply IH; [exact Hz1|]. right. split; [lia|]. split; [exact Hz2|exact Hy]. }
+    rewrite He, Hs. destruct (reset_groups (snd y) egs (ege - egs)) as [g1|]; [rewrite Hit|]; reflexivity.
   Qed.
 End LoopFacts.
 
@@ -164,29 +189,67 @@ Section Unroll.
     | _ => [NLoop body 0 mx' g egs ege]
     end.
 
-  Lemma unroll_main f fwd body mn mx g egs ege : (ege - egs = 0)%nat -> mn <= max_val mx ->
-    mn + N.of_nat f < USIZE_MAX ->
-    forall j m k, k + N.of_nat j = mn -> (m <= f)%nat -> forall xs r,
+  (* the indexer moves inside the text and in its direction (on every text); the well-formed positions lie inside
+     this text, which is shorter than usize::MAX *)
+  Hypothesis Hcur : forall (h' : hay) fwd p c p', (p <= length h')%nat -> cnext ix fwd h' p = Ok (Some (c, p')) -> (p' <= length h')%nat.
+  Hypothesis Hdir : forall (h' : hay) fwd p c p', cnext ix fwd h' p = Ok (Some (c, p')) -> if fwd then (p <= p')%nat else (p' <= p)%nat.
+  Hypothesis Hk0 : forall q, okp q -> (q <= length h)%nat.
+  Hypothesis Hlen : N.of_nat (length h) + 8 < USIZE_MAX.
+  Notation len := (length h).
+
+  Definition mu (fwd : bool) (q : nat) : nat := if fwd then q else (len - q)%nat.
+
+  Lemma body_moves f fwd body : forall y zs, (fst y <= len)%nat -> IR f body fwd y = Some zs ->
+    Forall (fun z => (fst z <= len)%nat /\ (mu fwd (fst y) <= mu fwd (fst z))%nat) zs.
+  Proof.
+    intros [p G] zs Hy E. cbn [fst] in *.
+    pose proof (ir_range ix unicode utf16 h Hcur f body fwd p G zs Hy E) as Hr.
+    pose proof (ir_mono ix unicode utf16 h Hdir f body fwd p G zs E) as Hm.
+    unfold okpos in Hr. unfold okdir, dir in Hm. rewrite Forall_forall in *. intros z Hz.
+    specialize (Hr z Hz). specialize (Hm z Hz). split; [exact Hr|]. unfold mu. destruct fwd; lia.
+  Qed.
+
+  Lemma obindm_fle_in {A} (f g : A -> option (list mst)) : forall xs r,
+    (forall x r0, In x xs -> f x = Some r0 -> g x = Some r0) -> obindm f xs = Some r -> obindm g xs = Some r.
+  Proof.
+    induction xs as [|x xs IH]; intros r Hfg E; [exact E|]. cbn [obindm] in *.
+    destruct (f x) as [a|] eqn:Ef; [|discriminate]. destruct (obindm f xs) as [b|] eqn:Eb; [|discriminate].
+    rewrite (Hfg x a (or_introl eq_refl) Ef). rewrite (IH b) by (intros; eauto using in_cons). exact E.
+  Qed.
+
+  Lemma unroll_main f fwd body mn mx g egs ege : (ege - egs = 0)%nat -> mn <= max_val mx -> mn <= 5 ->
+    forall j m k, k + N.of_nat j = mn -> (m <= f)%nat -> forall xs r, Forall (fun x => (fst x <= len)%nat) xs ->
     obindm (loop_results (IR f body fwd) mn mx g egs ege m k 0) xs = Some r ->
     cat_results (fun c => IR (S f) c fwd) (repeat body j ++ unroll_tail body mn mx g egs ege) xs = Some r.
   Proof.
-    intros Hz Hmm Hb. induction j as [|j IH]; intros m k Hk Hm xs r E.
+    intros Hz Hmm H5.
+    assert (Hshift : forall lf y, (fst y <= len)%nat ->
+              loop_results (IR f body fwd) mn mx g egs ege lf (mn + 0) 0 y =
+              loop_results (IR f body fwd) 0 (option_map (fun v => v - mn) mx) g egs ege lf 0 0 y).
+    { intros lf y Hy. apply (loop_shift (IR f body fwd) mn mx g egs ege Hz Hmm len (mu fwd)).
+      - intros q Hq. unfold mu. destruct fwd; lia.
+      - intros a b Ha Hb E. unfold mu in E. destruct fwd; lia.
+      - apply body_moves.
+      - lia.
+      - exact Hy.
+      - left. reflexivity. }
+    induction j as [|j IH]; intros m k Hk Hm xs r Hxs E.
     - cbn [repeat app]. assert (k = mn) by lia. subst k. unfold unroll_tail.
       destruct (option_map (fun v => v - mn) mx) as [[|vp]|] eqn:Emx.
       + (* the maximum is the minimum: nothing follows the copies *)
         destruct mx as [v|]; [|discriminate]. cbn [option_map] in Emx. inversion Emx as [Ev].
         cbn [max_val] in Hmm. assert (v = mn) by lia. subst v. cbn [cat_results]. f_equal. symmetry.
         eapply obindm_self; [|exact E]. intros y ry Ey. exact (loop_at_max _ mn (Some mn) g egs ege Hmm m 0 y ry eq_refl Ey).
-      + cbn [cat_results]. rewrite <- Emx.
-        erewrite obindm_fle; [reflexivity| |exact E]. intros y ry Ey. rewrite ir_loop_eq.
-        replace mn with (mn + 0) in Ey at 2 by lia.
-        rewrite (loop_shift _ mn mx g egs ege Hz Hmm) in Ey by lia.
+      + cbn [cat_results].
+        erewrite obindm_fle_in; [reflexivity| |exact E]. intros y ry Hin Ey. rewrite ir_loop_eq.
+        rewrite Forall_forall in Hxs. pose proof (Hxs y Hin) as Hy.
+        replace mn with (mn + 0) in Ey at 2 by lia. rewrite (Hshift m y Hy) in Ey.
         rewrite (loop_entry_irrel _ 0 _ g egs ege m 0 0 (fst y) y) in Ey by lia.
         eapply loop_fle; [apply fle_refl|exact Hm|exact Ey].
-      + cbn [cat_results]. rewrite <- Emx.
-        erewrite obindm_fle; [reflexivity| |exact E]. intros y ry Ey. rewrite ir_loop_eq.
-        replace mn with (mn + 0) in Ey at 2 by lia.
-        rewrite (loop_shift _ mn mx g egs ege Hz Hmm) in Ey by lia.
+      + cbn [cat_results].
+        erewrite obindm_fle_in; [reflexivity| |exact E]. intros y ry Hin Ey. rewrite ir_loop_eq.
+        rewrite Forall_forall in Hxs. pose proof (Hxs y Hin) as Hy.
+        replace mn with (mn + 0) in Ey at 2 by lia. rewrite (Hshift m y Hy) in Ey.
         rewrite (loop_entry_irrel _ 0 _ g egs ege m 0 0 (fst y) y) in Ey by lia.
         eapply loop_fle; [apply fle_refl|exact Hm|exact Ey].
     - cbn [repeat app cat_results]. destruct m as [|m].
@@ -200,20 +263,23 @@ Section Unroll.
             destruct (IR f body fwd y) as [zs|]; [|reflexivity]. apply obindm_ext_all. intro z.
             apply loop_entry_irrel. lia. }
         destruct (obindm_assoc _ _ xs r E) as [ys [Ey Eg]].
+        assert (Hys : Forall (fun x => (fst x <= len)%nat) ys).
+        { eapply (okpos_obindm h (IR f body fwd) (fun y => (fst y <= len)%nat)); [exact Hxs| |exact Ey].
+          intros [p G] r0 Hp Er. exact (ir_range ix unicode utf16 h Hcur f body fwd p G r0 Hp Er). }
         rewrite (obindm_fle (IR f body fwd) (IR (S f) body fwd) (ir_fuel_mono ix unicode utf16 h f (S f) ltac:(lia) body fwd) xs ys Ey).
-        eapply IH; [| |exact Eg]; lia.
+        eapply IH; [| |exact Hys|exact Eg]; lia.
   Qed.
 
   Lemma ref_unroll fwd body mn mx g egs ege : (ege - egs = 0)%nat -> mn <= max_val mx -> mn <= 5 ->
     ref fwd (NLoop body mn mx g egs ege) (NCat (repeat body (N.to_nat mn) ++ unroll_tail body mn mx g egs ege)).
   Proof.
     intros Hz Hmm H5. split; [|apply rstep_nol1; reflexivity].
-    exists 4%nat. intros [|f] Hf x r _ E; [discriminate|]. exists r. split; [|apply dd_refl].
-    unfold fuel_ok in Hf. assert (Hb : mn + N.of_nat f < USIZE_MAX) by lia.
+    exists 4%nat. intros [|f] x r Hx E; [discriminate|]. exists r. split; [|apply dd_refl].
     eapply (ir_fuel_mono ix unicode utf16 h (S (S f)) (S f + 4)); [lia|].
     rewrite ir_cat_eq. rewrite ir_loop_eq in E.
-    eapply (unroll_main f fwd body mn mx g egs ege Hz Hmm Hb (N.to_nat mn) f 0); [rewrite N2Nat.id; lia|lia|].
-    rewrite obindm_single. rewrite (loop_entry_irrel _ mn mx g egs ege f 0 0 (fst x) x) by lia. exact E.
+    eapply (unroll_main f fwd body mn mx g egs ege Hz Hmm H5 (N.to_nat mn) f 0); [rewrite N2Nat.id; lia|lia| |].
+    - constructor; [apply Hk0; exact (proj1 Hx)|constructor].
+    - rewrite obindm_single. rewrite (loop_entry_irrel _ mn mx g egs ege f 0 0 (fst x) x) by lia. exact E.
   Qed.
 
   Lemma unroll_sound lb n a : unroll_loops lb n = Ok a -> PRel lb n (act_node a n).
